@@ -45,6 +45,14 @@ theorem writers_are_not_the_readers :
       ["exporter.WithTemplate", "importer.WithTemplate", "row.ImportAtKey", "row.Set", "row.SetValue",
        "row.parseobject", "streamer.WithProcessor", "value.Import"] = true := by decide
 
+/-- The writer inventory above lists assignments to fields of the struct types whose objects can
+    be shared through the API (those implementing an exported interface, the types of package-level
+    variables, and what their fields reach); a private helper object made afresh by a call (an
+    iterator, a builder) is owned by that call. The API's own types are all in the tracked set. -/
+theorem api_types_are_tracked :
+    within ["exporter", "importer", "row", "streamer", "template", "value"] Gen.jsonlineSharedTypes = true := by
+  decide
+
 /-- pkg/cast assigns nothing outside its locals: `cast.TimeStringFormat` and the sentinels are
     only read. -/
 theorem cast_writes_nothing_shared : Gen.castWrites = [] := by decide
